@@ -266,6 +266,27 @@ pub fn configs(tier: Tier, judge: u32, liveness: bool) -> Vec<OutCfg> {
                 });
             }
         }
+        // a streamed publish abandoned by the application (payload handle dropped) while its send future is parked on
+        // the window: when its turn comes it fails locally, and the wake-up it consumed belongs to the next waiter
+        // (side remark of the sub-agent of seeded change C13_r11)
+        for (cap, senders) in [(1u16, vec![SK::Q1, SK::StreamAbandon, SK::Q1]), (1, vec![SK::StreamAbandon, SK::Q1]), (2, vec![SK::Q1, SK::Q1, SK::StreamAbandon, SK::Q1])] {
+            v.push(OutCfg {
+                ep: ep_for(EpCfg::new(ver, role), cap, false),
+                cap,
+                senders,
+                cancels: 0,
+                batch: false,
+                bp: 0,
+                peer: PeerMode::Correct,
+                judge,
+                prologue: 0,
+                peer_max_packet: 0,
+                inbound: 0,
+                may_close: false,
+                inbound_faults: false,
+                cancel_inflight: false,
+            });
+        }
         // QoS 2 sends whose receipt is dropped instead of released: PUBREL is written by the drop, nobody awaits
         // PUBCOMP, and the slot it frees must still wake the next parked sender (seeded change C13_r5)
         for (cap, senders) in [(1u16, vec![SK::Q2Drop, SK::Q1]), (1, vec![SK::Q2Drop, SK::Ready, SK::Q1]), (2, vec![SK::Q2Drop, SK::Q1, SK::Q1])] {
